@@ -584,6 +584,7 @@ def run(run):
     run.rule('R-THROW.5', 'try_ functions do not reach a block source or a throwing allocation function', floor=60)
     run.rule('R-THROW.7', 'a failing upstream request leaves the data members of the requesting allocator unwritten', floor=40)
     run.rule('R-THROW.6', 'size checks dominate the first state change in the listed entry points', floor=10)
+    run.rule('R-THROW.bound', 'the bump allocators refuse exactly the requests that do not fit (shared rule R-BOUND of C01)', floor=10)
     run.explanation = ('Never-null is a least fixpoint over the extracted call graph with path-sensitive null tests; the try_ half is '
                        'noexcept + no may-throw event + call-graph unreachability of block sources; exception types and handler calls are structural.')
     run.assumptions += ['user RawAllocators / BlockAllocators / memory_resources honour their concept (throwing functions do not return null)',
@@ -604,6 +605,11 @@ def run(run):
             run.broke('try_ functions not found [%s]' % cfg)
         if check_failed_growth(run, db) < 30:
             run.broke('throwing allocation functions not found for R-THROW.7 [%s]' % cfg)
+        # a request that cannot be served must be refused: the refusal condition of the bump allocators is exact (the advance of
+        # the cursor is what was compared with the region end, without unsigned wrap-around) - shared rule R-BOUND of C01
+        from rules import c01, c05
+        if c01.check_bound(c05._Renamed(run, 'R-THROW.bound'), db) < 2:
+            run.broke('bump allocation sites not found [%s]' % cfg)
         if check_checks_first(run, db) < 8:
             run.broke('listed entry points for R-THROW.6 not found [%s]' % cfg)
     fixtures.expect_fire(run, 'c03_bad.cpp', _fixture, 'R-NN')
